@@ -87,6 +87,11 @@ fn main() {
             Err(p) => (101, format!("panicked at {}: {}", p.loc, p.msg)),
         };
         let stderr: String = stderr.chars().take(300).collect();
-        writeln!(w, "{}", json!({"idx": j["idx"], "tool": tool, "rc": rc, "passes": passes, "stderr": stderr})).unwrap();
+        let mut row = json!({"idx": j["idx"], "tool": tool, "rc": rc, "passes": passes, "stderr": stderr});
+        if j.get("all_events").and_then(|x| x.as_bool()).unwrap_or(false) {
+            // the register-allocation events too (C05, real ECL part)
+            row["events"] = json!(events.iter().filter(|e| e["ev"] != "pass").collect::<Vec<_>>());
+        }
+        writeln!(w, "{}", row).unwrap();
     }
 }
